@@ -45,7 +45,7 @@ claim("C04",
       "KB.Props.C04Window (624b477, `Deal` refuses while dealt+1-committed >= the ring): in every reachable state every dealt unresolved revision is "
       "inside the ring's window and has a slot of its own, with NO bound on requests in flight (`window_holds`, `notify_never_overflows`, "
       "`slot_always_free`); a full window is a refusal without a revision, not a panic; the old `Deal` is refuted on a 3-slot ring (decided). "
-      "Correspondence: gated schedules (every storage call a script step, incl. the repair loop's own calls) on three engines.",
+      "Correspondence: gated schedules (every storage call a script step, incl. the repair loop's own calls) on three engines; sequential histories in which some requests run with an already cancelled context (`gone=1`).",
       TB + "Atomicity granularity of KB.Sys (one Deal / one batch commit / one snapshot read / one slot store per step); Go scheduler fairness for liveness. "
       "The full-window path is not exercised on the real code (100000 requests in flight; /repo has no verif-only way to shrink the ring): theorem + "
       "regenerated constant + the instruction-level model of Deal (C18Cas).",
